@@ -285,6 +285,7 @@ Inductive mop : Type :=
 | MShape (k : nat)              (* read obj_k.data_shape *)
 | MSize (k : nat)               (* read obj_k.data_size *)
 | MPoints (k : nat)             (* read obj_k.data_points *)
+| MProp (p : nat) (k : nat)     (* read another public property of obj_k, see [prop_q] / [prop_n] *)
 | MSet (k : nat) (pts : bool)   (* obj_k.data_location = ... *)
 | MCopy (k : nat).              (* objs.append(obj_k.copy()) *)
 
@@ -292,9 +293,28 @@ Inductive mres : Type :=
 | RShape (s : list nat)
 | RSize (n : nat)
 | RPoints (p : list (list Q))
+| RQ (p : nat) (m : list (list Q))
+| RN (p : nat) (m : list (list nat))
 | RSet (ok : bool)              (* false = ValueError, nothing changed *)
 | RCopied
 | RBad.                         (* no such object *)
+
+(** further public properties read on a living object (all are recomputed on every access):
+    0 data_axes, 1 points, 2 cell_centers, 3 data_points of to_unstructured(), 4 cell_axes;
+    5 cells, 6 [data_shape] of to_unstructured() *)
+Definition prop_q (p : nat) (g : grid) : list (list Q) :=
+  match p with
+  | 0 => data_axes g
+  | 1 => points g
+  | 2 => cell_centers g
+  | 3 => u_data_points (to_unstructured g)
+  | _ => cell_axes g
+  end.
+Definition prop_n (p : nat) (g : grid) : list (list nat) :=
+  match p with
+  | 5 => cells g
+  | _ => [u_data_shape (to_unstructured g)]
+  end.
 
 Definition set_loc (g : grid) (pts : bool) : grid :=
   mkgrid (g_axes g) (g_inc g) (g_c g) (g_rev g) pts (g_crs g) (g_esri g).
@@ -309,7 +329,7 @@ Fixpoint upd {A : Type} (k : nat) (x : A) (l : list A) : list A :=
 (** [reset = true] is the code as it is (setter forgets the memo); [reset = false] is the code
     before the repair of finding F6, kept for the refutation example. *)
 Definition mstep (reset : bool) (st : list rgrid) (o : mop) : list rgrid * mres :=
-  let k := match o with MShape k | MSize k | MPoints k | MSet k _ | MCopy k => k end in
+  let k := match o with MShape k | MSize k | MPoints k | MProp _ k | MSet k _ | MCopy k => k end in
   match nth_error st k with
   | None => (st, RBad)
   | Some r =>
@@ -326,6 +346,7 @@ Definition mstep (reset : bool) (st : list rgrid) (o : mop) : list rgrid * mres 
               (upd k (mkr (r_g r) (Some s) (Some (prod s))) st, RSize (prod s))
           end
       | MPoints _ => (st, RPoints (data_points (r_g r)))
+      | MProp p _ => (st, if p <? 5 then RQ p (prop_q p (r_g r)) else RN p (prop_n p (r_g r)))
       | MSet _ pts =>
           if pts && g_esri (r_g r) then (st, RSet false)
           else if reset then (upd k (mkr (set_loc (r_g r) pts) None None) st, RSet true)
@@ -340,7 +361,7 @@ Fixpoint mrun (reset : bool) (st : list rgrid) (ops : list mop) : list (mres * o
   | [] => []
   | o :: r =>
       let '(st', x) := mstep reset st o in
-      let k := match o with MShape k | MSize k | MPoints k | MSet k _ | MCopy k => k end in
+      let k := match o with MShape k | MSize k | MPoints k | MProp _ k | MSet k _ | MCopy k => k end in
       (x, option_map r_g (nth_error st' k)) :: mrun reset st' r
   end.
 
@@ -369,6 +390,8 @@ Definition mres_eqb (a b : mres) : bool :=
   | RShape s, RShape t => list_eqb Nat.eqb s t
   | RSize n, RSize m => Nat.eqb n m
   | RPoints p, RPoints q => qmat_eqb p q
+  | RQ p m, RQ q n => Nat.eqb p q && qmat_eqb m n
+  | RN p m, RN q n => Nat.eqb p q && nmat_eqb m n
   | RSet x, RSet y => Bool.eqb x y
   | RCopied, RCopied => true
   | RBad, RBad => true
